@@ -299,7 +299,7 @@ def strategies(tier):
         "kind": st.just("file"), "cls": st.just(n), "records": st.lists(vals(n), max_size=6), "extra": st.lists(vals(n), min_size=1, max_size=3),
         "mutable": st.sampled_from(["MutableRecordFile", "MutableMemoryMappedRecordFile"]),
         "ops": codes(0, 12).map(lambda cs: [[EDIT[c % len(EDIT)], (c // 8) % 11, (c // 88) % 5] for c in cs])}))
-    return [("roundtrips", roundtrip, 3000000 if big else 12000), ("record-files", file_case, 200000 if big else 3000)]
+    return [("roundtrips", roundtrip, 1200000 if big else 12000), ("record-files", file_case, 200000 if big else 3000)]
 
 
 def enumerations(tier):
